@@ -1,0 +1,66 @@
+//! Verification hooks (only compiled with the `verif-hooks` feature)
+//!
+//! A thread local logical step counter that external monitors can use to bound the work done by a compile.
+//! With the feature disabled this module does not exist and no call sites are compiled in.
+
+use std::cell::Cell;
+
+/// Number of distinct tick sites
+pub const SITE_COUNT: usize = 32;
+
+/// Panic payload used when the step budget is exceeded
+#[derive(Debug, Clone, Copy, PartialEq, Eq)]
+pub struct BudgetExceeded {
+    /// Site that observed the budget being exceeded
+    pub site: u32,
+    /// Number of ticks counted
+    pub ticks: u64,
+}
+
+thread_local! {
+    static TICKS: Cell<u64> = const { Cell::new(0) };
+    static BUDGET: Cell<u64> = const { Cell::new(u64::MAX) };
+    static SITES: [Cell<u64>; SITE_COUNT] = const { [const { Cell::new(0) }; SITE_COUNT] };
+}
+
+/// Reset the counters of the current thread and set a new budget
+pub fn reset(budget: u64) {
+    TICKS.with(|t| t.set(0));
+    BUDGET.with(|b| b.set(budget));
+    SITES.with(|s| s.iter().for_each(|c| c.set(0)));
+}
+
+/// Number of ticks counted on the current thread since the last reset
+pub fn ticks() -> u64 {
+    TICKS.with(|t| t.get())
+}
+
+/// Per-site tick counts on the current thread since the last reset
+pub fn sites() -> [u64; SITE_COUNT] {
+    SITES.with(|s| {
+        let mut out = [0; SITE_COUNT];
+        for (o, c) in out.iter_mut().zip(s.iter()) {
+            *o = c.get();
+        }
+        out
+    })
+}
+
+/// Count one logical step at the given site - panics with [BudgetExceeded] when the budget is exhausted
+#[inline]
+pub fn tick(site: u32) {
+    let ticks = TICKS.with(|t| {
+        let v = t.get() + 1;
+        t.set(v);
+        v
+    });
+    SITES.with(|s| {
+        let c = &s[site as usize % SITE_COUNT];
+        c.set(c.get() + 1);
+    });
+    if ticks > BUDGET.with(|b| b.get()) {
+        // Disarm so unwinding code that ticks does not panic again
+        BUDGET.with(|b| b.set(u64::MAX));
+        std::panic::panic_any(BudgetExceeded { site, ticks });
+    }
+}
